@@ -129,3 +129,27 @@ def keep_only_loop(keep, total, label="excluded by the case precondition of this
             body = body[:ob] + '{ __CPROVER_assert(0, "%s"); }' % label + body[cb + 1:]
         return body, len(set(blocks))
     return rule
+
+# ---------------------------------------------------------------- byte-image readers/writers (C09, C11)
+MO = "common/include/memory_operations.hpp"
+MEMOPS_PRELUDE = r'''
+/* C rendering of the templates of common/include/memory_operations.hpp: copy_from_mem(src, T& item) / copy_to_mem(T item, dst) copy sizeof(T) bytes */
+#define copy_from_mem(src, item) (memcpy(&(item), (src), sizeof(item)), sizeof(item))
+#define copy_from_mem_n(src, dst, size) (memcpy((dst), (src), (size)), (size))
+#define copy_to_mem(item, dst) (memcpy((dst), &(__typeof__(item)){item}, sizeof(item)), sizeof(item))
+#define SIZE_CAP ((size_t)1 << 16)
+'''
+ensure_minimum_memory = {"name": "ensure_minimum_memory", "file": MO, "match": r"static inline void ensure_minimum_memory\(size_t bytes_available, size_t min_needed\)",
+                         "sig": "static inline void ensure_minimum_memory(size_t bytes_available, size_t min_needed)"}
+check_memory_size = {"name": "check_memory_size", "file": MO, "match": r"static inline void check_memory_size\(size_t requested_index, size_t capacity\)",
+                     "sig": "static inline void check_memory_size(size_t requested_index, size_t capacity)"}
+# message building through std::ostringstream before a throw: dropped (only the message text is lost)
+OSTREAM = [(r"std::ostringstream os;", "", "any"), (r"\bos\s*<<[^;]*;", "", "any")]
+
+# harness fragment for byte readers: exact-size heap buffer of symbolic length and content, with a 64-byte witness copy of its head that shows up in counterexample traces
+READER_INPUT = r"""
+  size_t in_size = nondet_size(); __CPROVER_assume(in_size <= SIZE_CAP);
+  uint8_t* in_bytes = malloc(in_size); __CPROVER_assume(in_bytes != NULL);
+  uint8_t in_img[64]; for (int wi_ = 0; wi_ < 64; wi_++) in_img[wi_] = ((size_t)wi_ < in_size) ? in_bytes[wi_] : 0;
+"""
+READER_REPLAY_VARS = {"SIZE": "val('in_size')", "BYTES": "''.join('%d,' % (int(x) & 255) for x in arr('in_img', 64))"}
